@@ -277,3 +277,8 @@ def obligations(tier, seed):
         else:
             obs.append(make_fcc_enum(name, cases))
     return obs
+
+
+def gates(tier, seed):
+    from .gates import assembler_gates
+    return assembler_gates(tier, seed)
